@@ -256,7 +256,20 @@ func RunC02(out string) {
 			// put a message with an arbitrary builder history back, then take it out again
 			d := pl.AcquireMessage(nil)
 			di++
-			buildPool(d, dirty[(di*13)%len(dirty)])
+			dm := dirty[(di*13)%len(dirty)]
+			if di%2 == 0 {
+				buildPool(d, dm)
+			} else {
+				// ... or whose previous use was the decoding of another message (one with a payload)
+				if len(dm.Pay) == 0 {
+					dm.Pay = []byte("payload-of-the-previous-message")
+				}
+				src := pool.NewMessage(nil)
+				buildPool(src, dm)
+				if prev, err := src.MarshalWithEncoder(coderFor(tcp)); err == nil {
+					_, _ = d.UnmarshalWithDecoder(coderFor(tcp), append([]byte(nil), prev...))
+				}
+			}
 			pl.ReleaseMessage(d)
 			return pl.AcquireMessage(nil)
 		}
